@@ -160,6 +160,9 @@ func newKeyring(validator, committee neotest.Signer) *keyring {
 	}
 	add(validator)
 	add(committee)
+	for _, pk := range extraValidatorKeys() {
+		kr.byPub[pk.PublicKey().StringCompressed()] = pk
+	}
 	for i := 0; i < numAccounts; i++ {
 		h := sha256.Sum256([]byte(fmt.Sprintf("verif-ledger-account-%d", i)))
 		pk, err := keys.NewPrivateKeyFromBytes(h[:])
@@ -481,4 +484,18 @@ func (p *producer) finishTx(tx *transaction.Transaction, signers []neotest.Signe
 			panic(err)
 		}
 	}
+}
+
+// extraValidatorKeys are the 7 deterministic keys used as standby committee / validators of 7-validator network runs.
+func extraValidatorKeys() []*keys.PrivateKey {
+	var r []*keys.PrivateKey
+	for i := 0; i < 7; i++ {
+		h := sha256.Sum256([]byte(fmt.Sprintf("verif-netsim-validator-%d", i)))
+		pk, err := keys.NewPrivateKeyFromBytes(h[:])
+		if err != nil {
+			panic(err)
+		}
+		r = append(r, pk)
+	}
+	return r
 }
